@@ -83,25 +83,31 @@ def threads(arg):
     import beartype.claw._importlib._clawimpfileloader  # noqa: F401
     import beartype.claw._ast.clawastmain  # noqa: F401
     import beartype.door  # noqa: F401
+    sched.import_lock_users()
     sched.restore_real_locks()
     import importlib
     from beartype.claw import beartype_package
     beartype_package('c16pkg', conf=conf_for(arg['hook']))
     # warm the machinery up on modules that are not part of the race
-    importlib.import_module('c16pkg')
+    # parent packages are imported up front: two threads importing siblings would otherwise queue on the parent's (real,
+    # uncooperative) per-module import lock
+    for parent in ('c16pkg', 'c16pkg.sub', 'c16other'):
+        importlib.import_module(parent)
     importlib.import_module('c16warm')
     prefix = os.path.dirname(beartype.__file__) + os.sep
     import _imp
-    s = sched.Scheduler(2, arg['schedule'], prefix, (), step_timeout=20.0, defer=_imp.lock_held)
+    s = sched.Scheduler(len(arg.get('programs') or [0, 0]), arg['schedule'], prefix, (), step_timeout=20.0, defer=_imp.lock_held)
 
-    def hooked():
-        importlib.import_module('c16pkg.mod_a')
-        return 'ok'
-
-    def unhooked():
-        importlib.import_module('c16other.mod_u')
-        return 'ok'
-    fns = [hooked, unhooked] if arg.get('hooked_first', True) else [unhooked, hooked]
+    def runner(mods):
+        def run():
+            for m in mods:
+                importlib.import_module(m)
+            return 'ok'
+        return run
+    programs = arg.get('programs')
+    if programs is None:      # older replay files: one hooked and one unhooked import
+        programs = [['c16pkg.mod_a'], ['c16other.mod_u']] if arg.get('hooked_first', True) else [['c16other.mod_u'], ['c16pkg.mod_a']]
+    fns = [runner(p) for p in programs]
     s.run(fns)
     print(json.dumps({'errors': [None if e is None else '%s: %s' % (type(e).__name__, str(e)[:200]) for e in s.errors],
                       'deadlock': s.deadlock, 'timeout': s.timeout, 'switches': s.switches,
